@@ -273,6 +273,21 @@ class Listener(plumpy.ProcessListener):
         if op is not None and self.run is not None:
             self.run.do(op, from_listener=True)
 
+    def hook_hit(self, name, state):
+        """a state event callback (exiting / entering phase of a transition): NOT a notification (not logged in .ev), but the plan
+        may issue a request from it, like an overridden on_exit_running / on_entering that calls self.kill()"""
+        n = self.counts[name] = self.counts.get(name, 0) + 1
+        op = self.plan.get((name, n))
+        if op is not None and self.run is not None and getattr(self.run.p, '_stepping', True):
+            # only during a step's closing transition: a control call from inside a transition that was itself started by a
+            # control call outside a step is a re-entrant transition, which the state machine documents as unsupported
+            # ("Cannot call transition_to when already transitioning state")
+            self.run.term_trans = bool(state is not None and state.is_terminal())
+            try:
+                self.run.do(op, from_listener=True)
+            finally:
+                self.run.term_trans = False
+
     def on_process_running(self, p): self._hit('run')
     def on_process_waiting(self, p): self._hit('wai')
     def on_process_paused(self, p): self._hit('pau')
@@ -313,6 +328,11 @@ class Run:
         p.add_state_event_callback(StateEventHook.ENTERED_STATE, lambda sm, h, st: self.entered.append(sm.state.value))
         self.lis = Listener(self, plan)
         p.add_process_listener(self.lis)
+        self.term_trans = False          # a planned request is being issued from inside the transition into a terminal state
+        self.term_kills = []
+        if plan and any(k[0] in ('exi', 'ent') for k in plan):
+            p.add_state_event_callback(StateEventHook.EXITING_STATE, lambda sm, h, st: self.lis.hook_hit('exi', st))
+            p.add_state_event_callback(StateEventHook.ENTERING_STATE, lambda sm, h, st: self.lis.hook_hit('ent', st))
         self.cleanups = []
         self.cleanups_other = {'raising': 0, 'last': 0}
         p.add_cleanup(lambda: self.cleanups.append(1))
@@ -449,10 +469,14 @@ class Run:
             ret = {True: 'T', False: 'F', None: 'none'}.get(r, 'other')
         idx = len(self.ops)
         self.calls.append(dict(op=toks[0], arg=toks[1:], phase=ph, ret=ret, raised=raised, live=live, idx=idx, obj=r,
-                               from_listener=from_listener))
+                               from_listener=from_listener, term_trans=self.term_trans))
         if from_listener:
             # issued from inside a notification: logged for the monitors, not an op of the line protocol
-            if toks[0] == 'kill' and live:
+            if toks[0] == 'kill' and live and self.term_trans:
+                # the transition into a terminal state cannot be abandoned (C01): such a kill is under no obligation to take
+                # effect, but it must not report True unless the process ends KILLED
+                self.term_kills.append(('raised' if raised else r, 'km%d' % idx, idx))
+            elif toks[0] == 'kill' and live:
                 self.kill_results.append(('raised' if raised else r, 'km%d' % idx, idx))
             self.listener_ops.append((idx, op, ret))
             return
